@@ -352,6 +352,18 @@ def _oracle_path(path, case) -> list:
         attrs = dict(table.attrs)
         table = table[keep]
         table.attrs.update(attrs)
+    if case.get("variant") == "backbone-gaps":
+        # single inner backbone atoms left out (C5' / C4' / O5' / C3' of residues whose number is 1 / 2 / 3 / 4 mod 5):
+        # partly modelled residues inside intact chains - every torsion defined over a missing atom has no value
+        fmt = table.attrs.get("format")
+        ncol, acol = ("resSeq", "name") if fmt == "PDB" else ("auth_seq_id", "auth_atom_id" if "auth_atom_id" in table.columns else "label_atom_id")
+        gone = {1: "C5'", 2: "C4'", 3: "O5'", 4: "C3'"}
+        num = table[ncol].astype(int) % 5
+        names_ = table[acol].astype(str).str.strip().str.strip('"')
+        keep = ~np.array([gone.get(int(m)) == nm for m, nm in zip(num, names_)])
+        attrs = dict(table.attrs)
+        table = table[keep]
+        table.attrs.update(attrs)
     st = Structure(table)
     ta = st.torsion_angles
     n_tab = 0
@@ -484,6 +496,7 @@ def plan(tier, seed):
         specs += [{"kind": "corpus", "files": [f]} for f in QUICK_FILES]
         specs += [{"kind": "corpus", "files": ["1ATO.pdb"], "variant": "icode-runs"}, {"kind": "corpus", "files": ["1ATO.pdb"], "variant": "row-selection"},
                   {"kind": "corpus", "files": ["1ATO.pdb"], "variant": "reverse-numbering"},
+                  {"kind": "corpus", "files": ["1ATO.pdb"], "variant": "backbone-gaps"}, {"kind": "corpus", "files": ["184D.cif"], "variant": "backbone-gaps"},
                   {"kind": "corpus", "files": ["1ATO.pdb"], "variant": "stretched-glycosidic"}, {"kind": "corpus", "files": ["488d.pdb"], "variant": "stretched-glycosidic", "phase": 4},
                   {"kind": "corpus", "files": ["184D.cif"], "variant": "row-selection"}]
     else:
@@ -493,6 +506,7 @@ def plan(tier, seed):
         specs += [{"kind": "corpus", "files": [f], "variant": "icode-runs"} for f in corpus_files() if f.endswith(".pdb")]
         specs += [{"kind": "corpus", "files": [f], "variant": "row-selection"} for f in corpus_files()]
         specs += [{"kind": "corpus", "files": [f], "variant": "reverse-numbering"} for f in corpus_files() if f.endswith(".pdb")]
+        specs += [{"kind": "corpus", "files": [f], "variant": "backbone-gaps"} for f in corpus_files()]
         specs += [{"kind": "corpus", "files": [f], "variant": "stretched-glycosidic", "phase": ph} for f in corpus_files() if f.endswith(".pdb") for ph in (0, 3, 6)]
     return specs
 
@@ -555,7 +569,7 @@ def run_shard(spec) -> ShardResult:
             check_case(PROP_ID, oracle_file, case, res, to_json=lambda c: {k: v for k, v in c.items() if not k.startswith("_")})
             n_chi, n_tab = case.get("_counts", (0, 0))
             res.note_case({"file": fn, "variant": spec.get("variant"), "chi_values": n_chi, "table_values": n_tab}, n_chi > 0,
-                          ["corpus-file"] + ({"icode-runs": ["renumbered-onto-insertion-code-runs"], "row-selection": ["table-is-a-row-selection"], "reverse-numbering": ["chain-numbered-3'-to-5'"], "stretched-glycosidic": ["glycosidic-bonds-0.85-to-2.45-A"]}.get(spec.get("variant"), [])))
+                          ["corpus-file"] + ({"icode-runs": ["renumbered-onto-insertion-code-runs"], "row-selection": ["table-is-a-row-selection"], "reverse-numbering": ["chain-numbered-3'-to-5'"], "stretched-glycosidic": ["glycosidic-bonds-0.85-to-2.45-A"], "backbone-gaps": ["single-backbone-atoms-missing-inside-chains"]}.get(spec.get("variant"), [])))
             res.extra["corpus_chi_values"] = res.extra.get("corpus_chi_values", 0) + n_chi
             res.extra["corpus_table_values"] = res.extra.get("corpus_table_values", 0) + n_tab
         res.exhaustive = False
